@@ -133,14 +133,15 @@ func structure(format, out string, subAttr bool) []tok {
 }
 
 type built struct {
-	hasTagHole bool
-	d          doc
-	t          *scriggo.Template
-	benign     string
-	toks       []tok
-	sig        string
-	holes      []hook6.Hole
-	sub        bool
+	tagSlots  []int // slots of the variables shown in Tag-context holes
+	usedSlots [3]bool
+	d         doc
+	t         *scriggo.Template
+	benign    string
+	toks      []tok
+	sig       string
+	holes     []hook6.Hole
+	sub       bool
 }
 
 func runTemplate(t *scriggo.Template, vars map[string]any) (out string, err error) {
@@ -171,9 +172,25 @@ func build(d doc) (*built, error) {
 	b.sig = sigOf(b.toks)
 	b.holes, _ = hook6.Holes([]byte(d.src), formatOf(d.format))
 	for _, h := range b.holes {
-		if h.Context == "tag" {
-			b.hasTagHole = true
+		if h.Context == "tag" && h.Start >= 0 && h.End < len(d.src) && h.Start <= h.End {
+			for _, v := range holeVarRe(d.src[h.Start : h.End+1]) {
+				if sl, ok := slotOf[v]; ok {
+					b.tagSlots = append(b.tagSlots, sl)
+				}
+			}
 		}
+	}
+	all := d.src
+	for _, x := range d.extra {
+		all += x
+	}
+	for _, v := range holeVarRe(all) {
+		if sl, ok := slotOf[v]; ok {
+			b.usedSlots[sl] = true
+		}
+	}
+	if strings.Contains(all, "M(s)") {
+		b.usedSlots[0] = true
 	}
 	return b, nil
 }
@@ -206,7 +223,7 @@ func (b *built) structDiff(toks []tok) string {
 		if x == y {
 			continue
 		}
-		if i < len(b.toks) && i < len(toks) && strings.Contains(x, benign) && kindOf(x) == kindOf(y) {
+		if i < len(b.toks) && i < len(toks) && hasMarker(x) && kindOf(x) == kindOf(y) {
 			continue
 		}
 		return fmt.Sprintf("token %d: benign %q, with the value %q (benign has %d tokens, this run %d)", i, x, y, len(b.toks), len(toks))
@@ -219,13 +236,15 @@ func normNL(s string) string {
 }
 
 // check runs the template with val and compares with the benign run. clause "" = holds.
-func (b *built) check(val string) (clause, detail, out string) {
+func (b *built) check(val vec) (clause, detail, out string) {
 	out, err := runTemplate(b.t, varsFor(val))
 	if err != nil {
 		return "run-error", err.Error(), out
 	}
-	if val == "" && b.hasTagHole {
-		return "", "", out // an empty attribute-name slot is no attribute at all: allowed
+	for _, sl := range b.tagSlots {
+		if val[sl] == "" {
+			return "", "", out // an empty attribute-name slot is no attribute at all: allowed
+		}
 	}
 	toks := structure(b.d.format, out, b.sub)
 	if d := b.structDiff(toks); d != "" {
@@ -233,37 +252,35 @@ func (b *built) check(val string) (clause, detail, out string) {
 	}
 	// same structure: the decoded slot content must be the benign content with the marker replaced
 	attrName := ""
+	id := func(x string) string { return x }
 	for i, t := range toks {
 		bt := b.toks[i]
 		if t.sig == "html:attr-name" {
 			attrName = t.val
-			if t.val != bt.val && !strings.Contains(bt.val, benign) {
+			if t.val != bt.val && !hasMarker(bt.val) {
 				return "attribute-name-changed", fmt.Sprintf("%q -> %q", bt.val, t.val), out
 			}
 			continue
 		}
-		if !t.slot || !strings.Contains(bt.val, benign) {
+		if !t.slot || !hasMarker(bt.val) {
 			continue
 		}
 		var want string
 		switch t.sig {
-		case "html:text":
-			// x/net/html (and the RCDATA state) turn NUL into U+FFFD
-			want = strings.ReplaceAll(bt.val, benign, val)
+		case "html:text", "js:string":
+			want = substitute(bt.val, val, id)
 		case "html:attr-value":
 			if urlAttrs[attrName] {
 				continue
 			}
-			want = strings.ReplaceAll(bt.val, benign, val)
-		case "js:string":
-			want = strings.ReplaceAll(bt.val, benign, val)
+			want = substitute(bt.val, val, id)
 		case "json:string":
-			if !utf8.ValidString(val) {
+			if !utf8.ValidString(val[0]) || !utf8.ValidString(val[1]) || !utf8.ValidString(val[2]) {
 				continue
 			}
-			want = strings.ReplaceAll(bt.val, benign, val)
+			want = substitute(bt.val, val, id)
 		case "css:string":
-			want = strings.ReplaceAll(bt.val, benign, strings.ReplaceAll(val, "\x00", "�"))
+			want = substitute(bt.val, val, func(x string) string { return strings.ReplaceAll(x, "\x00", "\uFFFD") })
 		default:
 			continue
 		}
@@ -281,7 +298,7 @@ func (b *built) check(val string) (clause, detail, out string) {
 
 type failure struct {
 	b      *built
-	val    string
+	val    vec
 	clause string
 	detail string
 	out    string
@@ -291,13 +308,27 @@ type failure struct {
 // never single bytes, so that the shrunk document is still one the grammar generates and the
 // failure cannot drift to a different construct), then the value again. The clause is kept.
 func shrink(f failure) failure {
-	failingVal := func(b *built) func([]byte) bool {
-		return func(v []byte) bool {
-			c, _, _ := b.check(string(v))
-			return c == f.clause
+	shrinkVals := func(b *built, val vec) vec {
+		for pass := 0; pass < 2; pass++ {
+			for sl := 0; sl < 3; sl++ {
+				if !b.usedSlots[sl] {
+					val[sl] = "a"
+					continue
+				}
+				val[sl] = string(hx.ShrinkBytes([]byte(val[sl]), func(v []byte) bool {
+					cand := val
+					cand[sl] = string(v)
+					c, _, _ := b.check(cand)
+					return c == f.clause
+				}))
+			}
 		}
+		return val
 	}
-	val := hx.ShrinkBytes([]byte(f.val), failingVal(f.b))
+	val := shrinkVals(f.b, f.val)
+	if c, _, _ := f.b.check(val); c != f.clause {
+		val = f.val
+	}
 	cur := f.b
 	parts := append([]string(nil), f.b.d.parts...)
 	for i := 0; i < len(parts) && len(parts) > 1; {
@@ -307,19 +338,43 @@ func shrink(f failure) failure {
 		d.src = strings.Join(cand, "")
 		nb, err := build(d)
 		if err == nil {
-			if c, _, _ := nb.check(string(val)); c == f.clause {
+			if c, _, _ := nb.check(val); c == f.clause {
 				parts, cur = cand, nb
 				continue
 			}
 		}
 		i++
 	}
-	val = hx.ShrinkBytes(val, failingVal(cur))
-	c, det, out := cur.check(string(val))
+	if v2 := shrinkVals(cur, val); true {
+		if c, _, _ := cur.check(v2); c == f.clause {
+			val = v2
+		}
+	}
+	c, det, out := cur.check(val)
 	if c != f.clause {
 		return f
 	}
-	return failure{b: cur, val: string(val), clause: c, detail: det, out: out}
+	return failure{b: cur, val: val, clause: c, detail: det, out: out}
+}
+
+// usedVals: the values of the slots that some hole of the document shows
+func (f failure) usedVals() []string {
+	var vs []string
+	for sl, u := range f.b.usedSlots {
+		if u {
+			vs = append(vs, f.val[sl])
+		}
+	}
+	return vs
+}
+
+func anyVal(vs []string, p func(string) bool) bool {
+	for _, v := range vs {
+		if p(v) {
+			return true
+		}
+	}
+	return false
 }
 
 // the hole whose lexer context explains the failure: with one hole left after shrinking, that one
@@ -381,7 +436,7 @@ func classify(f failure) string {
 		return "bytes-raw-in-html"
 	case only("tag"):
 		// the Tag context does not replace U+0020 (nor `<`): the value adds attributes
-		if strings.ContainsAny(f.val, " <") {
+		if anyVal(f.usedVals(), func(v string) bool { return strings.ContainsAny(v, " <") }) {
 			return "tag-context-space"
 		}
 		return ""
@@ -393,11 +448,11 @@ func classify(f failure) string {
 		return "js-regex-literal-quote"
 	case stringEndsWithEscapedBackslash(src):
 		return "string-escaped-backslash-desync"
-	case holeInJSBlockComment(src) && strings.Contains(f.val, "*/"):
+	case holeInJSBlockComment(src) && anyVal(f.usedVals(), func(v string) bool { return strings.Contains(v, "*/") }):
 		return "js-block-comment-breakout"
-	case strings.Contains(strings.ReplaceAll(src, " ", ""), "}}{{") && formsLineSeparator(f.val):
+	case strings.Contains(strings.ReplaceAll(src, " ", ""), "}}{{") && formsLineSeparator(f.usedVals()):
 		return "js-string-split-line-separator"
-	case (only("unquoted attribute") || only("unquoted attribute+URL")) && f.val == "" && f.b.d.format == "html":
+	case (only("unquoted attribute") || only("unquoted attribute+URL")) && anyVal(f.usedVals(), func(v string) bool { return v == "" }) && f.b.d.format == "html":
 		return "unquoted-attr-empty-value"
 	case f.b.sub && (only("quoted attribute") || only("unquoted attribute")) && attrIsEventOrStyle(src):
 		return "attr-js-css-not-contextual"
@@ -407,9 +462,33 @@ func classify(f failure) string {
 
 // the value contains no U+2028 / U+2029 but two copies of it side by side do (it ends with a
 // truncated E2 / E2 80 and starts with the missing continuation bytes)
-func formsLineSeparator(v string) bool {
+func formsLineSeparator(vs []string) bool {
 	has := func(s string) bool { return strings.Contains(s, "\u2028") || strings.Contains(s, "\u2029") }
-	return !has(v) && has(v+v)
+	for _, v := range vs {
+		if has(v) {
+			return false
+		}
+	}
+	for _, v := range vs {
+		for _, w := range vs {
+			if has(v + w) {
+				return true
+			}
+		}
+	}
+	return false
+}
+
+// describe prints a value assignment with the variables built from each slot
+func describe(v vec, used [3]bool) string {
+	names := [3]string{"s, ls, ps, bs", "ns, er, arr, pp", "st, any, ms"}
+	var parts []string
+	for i := range v {
+		if used[i] {
+			parts = append(parts, fmt.Sprintf("%s = %q", names[i], v[i]))
+		}
+	}
+	return strings.Join(parts, ";  ")
 }
 
 func allEqual(ss []string, want string) bool {
@@ -591,7 +670,7 @@ func knownCases() []knownCase {
 
 func run(c *hx.Ctx) error {
 	res := c.Res
-	res.Rule = "a case is one (template document, shown value) pair rendered by the real engine and compared, token structure and decoded slot content, with the rendering of the same document for the benign value; documents come from a grammar over HTML (text, RCDATA, raw text, comments, quoted/unquoted/URL/srcset/event/style attributes, script and style elements with type variants) and standalone JS, CSS, JSON and Markdown files with holes of 15 variable types at every slot; values from a 230-entry context-breaking dictionary, fragment concatenations, random Unicode and random bytes. Non-trivial = the value is not the benign marker and contains a byte outside [A-Za-z0-9]; distinct by (document, value)"
+	res.Rule = "a case is one (template document, value assignment) pair rendered by the real engine and compared, token structure and decoded slot content, with the rendering of the same document for the benign markers; documents come from a grammar over HTML (text, RCDATA, raw text, comments, quoted/unquoted/URL/srcset/event/style attributes with one or SEVERAL holes — adjacent, separated by a short literal, or separated only by statements that write nothing —, script and style elements with type variants) and standalone JS, CSS, JSON and Markdown files with holes of 15 variable types at every slot; a value assignment gives the variables of one document three independent values (slots): the same value everywhere, or a state-establishing value (`?`, `#`, `,`, trailing `&`, open character reference, truncated UTF-8, pending escape) in one slot and breakers in the others, each drawn from a 230-entry context-breaking dictionary, fragment concatenations, random Unicode and random bytes. Non-trivial = some value contains a byte outside [A-Za-z0-9]; distinct by (document, assignment)"
 
 	if err := specValidation(c); err != nil {
 		return err
@@ -601,9 +680,9 @@ func run(c *hx.Ctx) error {
 	report := func(f failure, stream string) {
 		sf := shrink(f)
 		id := classify(sf)
-		human := fmt.Sprintf("%sshown value (every string-carrying variable is built from it) = %q\nbenign output:  %s\noutput:         %s\n%s\nlexer contexts of the holes: %v\n[before shrinking: value %q in]\n%s",
-			sf.b.d.human(), sf.val, sf.b.benign, sf.out, sf.detail, sf.holeContexts(), f.val, f.b.d.human())
-		br := proto.Break{Kind: "property", Name: sf.clause + " (" + stream + " stream)", Case: fmt.Sprintf("C06 doc %s %s value %s", sf.b.d.format, proto.Hex([]byte(sf.b.d.src)), proto.Hex([]byte(sf.val))),
+		human := fmt.Sprintf("%sshown values: %s\nbenign output:  %s\noutput:         %s\n%s\nlexer contexts of the holes: %v\n[before shrinking: values %s in]\n%s",
+			sf.b.d.human(), describe(sf.val, sf.b.usedSlots), sf.b.benign, sf.out, sf.detail, sf.holeContexts(), describe(f.val, f.b.usedSlots), f.b.d.human())
+		br := proto.Break{Kind: "property", Name: sf.clause + " (" + stream + " stream)", Case: fmt.Sprintf("C06 doc %s %s values %s %s %s", sf.b.d.format, proto.Hex([]byte(sf.b.d.src)), proto.Hex([]byte(sf.val[0])), proto.Hex([]byte(sf.val[1])), proto.Hex([]byte(sf.val[2]))),
 			Human: human, Impl: sf.out, Model: sf.b.benign}
 		if id != "" {
 			br.Finding = c.Known(id)
@@ -624,13 +703,13 @@ func run(c *hx.Ctx) error {
 			res.Notes = append(res.Notes, "known finding "+k.id+": template no longer builds: "+err.Error())
 			continue
 		}
-		clause, detail, out := b.check(k.val)
+		clause, detail, out := b.check(same(k.val))
 		res.Count("known:"+k.id, true)
 		if clause == "" {
 			res.Notes = append(res.Notes, "known finding "+k.id+" no longer reproduces")
 			continue
 		}
-		f := failure{b: b, val: k.val, clause: clause, detail: detail, out: out}
+		f := failure{b: b, val: same(k.val), clause: clause, detail: detail, out: out}
 		if got := classify(f); got != k.id {
 			return fmt.Errorf("classifier maps the recorded case of %s to %q", k.id, got)
 		}
@@ -677,15 +756,21 @@ func run(c *hx.Ctx) error {
 		}
 		reported := false
 		for j := 0; j < nVals; j++ {
-			val := randValue(c.R)
-			if d.format == "md" && strings.ContainsAny(val, "\t\r\n\f\v") {
+			val := randVec(c.R)
+			joined := val[0] + "\x00" + val[1] + "\x00" + val[2]
+			if d.format == "md" && strings.ContainsAny(joined, "\t\r\n\f\v") {
 				continue // line structure of Markdown values is property C26
 			}
-			used[val] = true
-			nontrivial := val != benign && strings.IndexFunc(val, func(r rune) bool {
+			if val[0] == val[1] && val[1] == val[2] {
+				res.Hist("values:same-in-every-slot")
+			} else {
+				res.Hist("values:different-per-variable")
+			}
+			used[val[0]], used[val[1]], used[val[2]] = true, true, true
+			nontrivial := strings.IndexFunc(strings.ReplaceAll(joined, "\x00", ""), func(r rune) bool {
 				return !('a' <= r && r <= 'z' || 'A' <= r && r <= 'Z' || '0' <= r && r <= '9')
 			}) >= 0
-			res.Count(d.src+"\x00"+val, nontrivial)
+			res.Count(d.src+"\x00"+joined, nontrivial)
 			clause, detail, out := b.check(val)
 			if clause == "run-error" {
 				res.Hist("run-error")
